@@ -37,7 +37,10 @@ class Script:
             self.underrun += 1
         return int(v)
 
-    def uniform(self, low=0.0, high=1.0, *a, **k):
+    def uniform(self, low=0.0, high=1.0, size=None, *a, **k):
+        if size is not None:      # vectorised draw: the next `size` scripted values
+            n = int(np.prod(size))
+            return np.array([self.uniform(low, high) for _ in range(n)]).reshape(size)
         if not self.q:
             self.underrun += 1
             return low
@@ -81,12 +84,27 @@ def run_part(cfg):
         return {"id": cfg["id"], "machinery": traceback.format_exc()}
 
 
+class _Stop(Exception):
+    """the partition itself raised: the wrapped make_children has logged the event (field exc); the session ends"""
+
+
+def _guard(fn, *a, **k):
+    try:
+        return fn(*a, **k)
+    except R.Hang:
+        raise
+    except Exception:
+        raise _Stop()
+
+
 def _run(cfg):
     kind, K, D = cfg["kind"], cfg["K"], cfg["D"]
     ar = A.arity(kind, K, D)
     P = {"kind": kind, "K": K, "D": D, "metric": cfg.get("metric", "rank"), "arity": ar, "algo": "partition"}
     box = [list(map(float, b)) for b in cfg["box"]]
     dom = [list(b) for b in box]
+    if cfg.get("alias_dom") and all(b == box[0] for b in box):
+        dom = [dom[0]] * D                    # [[lo, hi]] * d
     before = copy.deepcopy(dom)
     cls = A.partition_class(kind, K)
     part = cls(domain=dom, node=P_node)
@@ -95,39 +113,43 @@ def _run(cfg):
     events.append(tree.init_event)
     scale, shift = cfg.get("amap", (1.0, 0.0))
     amap = lambda v: shift + scale * v
+    stopped = [False]
     if "ops" in cfg:  # replay of a TLC behaviour
         script = Script()
         ops = cfg["ops"]
         with patched_rng(script):
             i = 0
-            while i < len(ops):
-                op = ops[i]
-                if op["op"] == "deepen":
-                    cnt = len(part.get_node_list()[part.get_depth()])
-                    sub = ops[i + 1 : i + 1 + cnt]
-                    for o in sub:
-                        _feed(script, kind, K, D, o.get("dim", 1), o["cuts"], amap)
-                    n0 = len(events)
-                    part.deepen()
-                    for e, o in zip(events[n0:], sub):
-                        e["want"] = [o.get("dim", 1), list(o["cuts"])]
-                        e["wantp"] = o["p"]
-                    i += 1 + cnt
-                else:
-                    if op["p"] > len(tree.nodes):
-                        # the implementation has produced fewer cells than the behaviour: it has already left the
-                        # behaviour (the trace spec rejects the deviating event); nothing more can be replayed
-                        events.append({"k": "diverged", "p": op["p"]})
-                        break
-                    _feed(script, kind, K, D, op.get("dim", 1), op["cuts"], amap)
-                    node = tree.nodes[op["p"] - 1]
-                    n0 = len(events)
-                    part.make_children(node, newlayer=bool(op["nl"]))
-                    for e in events[n0:]:
-                        e["want"] = [op.get("dim", 1), list(op["cuts"])]
-                        e["wantp"] = op["p"]
-                    i += 1
-        if (script.underrun or script.q) and not any(e.get("k") == "diverged" for e in events):
+            while i < len(ops) and not stopped[0]:
+              try:
+                  op = ops[i]
+                  if op["op"] == "deepen":
+                      cnt = len(part.get_node_list()[part.get_depth()])
+                      sub = ops[i + 1 : i + 1 + cnt]
+                      for o in sub:
+                          _feed(script, kind, K, D, o.get("dim", 1), o["cuts"], amap)
+                      n0 = len(events)
+                      _guard(part.deepen)
+                      for e, o in zip(events[n0:], sub):
+                          e["want"] = [o.get("dim", 1), list(o["cuts"])]
+                          e["wantp"] = o["p"]
+                      i += 1 + cnt
+                  else:
+                      if op["p"] > len(tree.nodes):
+                          # the implementation has produced fewer cells than the behaviour: it has already left the
+                          # behaviour (the trace spec rejects the deviating event); nothing more can be replayed
+                          events.append({"k": "diverged", "p": op["p"]})
+                          break
+                      _feed(script, kind, K, D, op.get("dim", 1), op["cuts"], amap)
+                      node = tree.nodes[op["p"] - 1]
+                      n0 = len(events)
+                      _guard(part.make_children, node, newlayer=bool(op["nl"]))
+                      for e in events[n0:]:
+                          e["want"] = [op.get("dim", 1), list(op["cuts"])]
+                          e["wantp"] = op["p"]
+                      i += 1
+              except _Stop:
+                stopped[0] = True
+        if (script.underrun or script.q) and not stopped[0] and not any(e.get("k") == "diverged" for e in events):
             events.append({"k": "script", "underrun": script.underrun, "left": len(script.q)})
     else:  # random session
         rnd = random.Random(cfg["seed"])
@@ -162,19 +184,21 @@ def _run(cfg):
                 # arity^depth, cells shrink to the resolution of the floats)
                 node = part.get_root()
                 for _ in range(cfg["chain_depth"]):
-                    part.make_children(node, newlayer=(node.get_depth() >= part.get_depth()))
+                    _guard(part.make_children, node, newlayer=(node.get_depth() >= part.get_depth()))
                     node = node.get_children()[0 if cfg["chain"] == "first" else -1]
                 nops = 0
             for _ in range(nops):
                 if len(tree.nodes) >= maxcells:
                     break
                 if rnd.random() < cfg.get("p_deepen", 0.25) and len(part.get_node_list()[part.get_depth()]) * ar + len(tree.nodes) <= maxcells:
-                    part.deepen()
+                    _guard(part.deepen)
                 else:
                     leaves = [n for n in tree.nodes if n.get_children() is None]
                     # prefer reachable leaves: walk from the root
                     node = rnd.choice(leaves)
-                    part.make_children(node, newlayer=(node.get_depth() >= part.get_depth()))
+                    _guard(part.make_children, node, newlayer=(node.get_depth() >= part.get_depth()))
+        except _Stop:
+            stopped[0] = True
         finally:
             if ctx:
                 ctx.__exit__()
